@@ -462,6 +462,14 @@ func gen(r *sim.Rng, tier string) *sim.Case {
 		nKeys = []int{70, 100, 130}[r.N(3)] // rare: a map larger than any plausible batch size
 		c.Params["init_pct"] = r.Range(50, 100)
 	}
+	big := r.N(1000) < 8
+	if big {
+		// a big map (thousands of live entries, nearly all of them present from the start):
+		// whatever an implementation does differently from some size on - recycling, chunked
+		// copies, background clean-up - happens here; Clear is frequent
+		nKeys = []int{8192, 8200, 10000, 16390}[r.N(4)]
+		c.Params["init_pct"] = 100 - r.N(2)*r.N(3)
+	}
 	c.Params["nkeys"] = nKeys
 	if r.Pct(8) {
 		c.Params["twin"] = 1 // a second map is used alternately by every thread
@@ -484,6 +492,9 @@ func gen(r *sim.Rng, tier string) *sim.Case {
 	if r.Pct(3) {
 		nT, maxOps = r.Range(6, 8), 2
 	}
+	if big && nT < 2 {
+		nT = 2
+	}
 	// swarm: a random subset of methods gets weight
 	w := make([]int, len(opNames))
 	for i := range w {
@@ -498,6 +509,10 @@ func gen(r *sim.Rng, tier string) *sim.Case {
 	if r.Pct(4) {
 		c.Params["others"] = 1 // MapOthers: callbacks under the lock use 96 other maps
 		w[len(w)-1] = 2
+	}
+	if big {
+		w[16] += 14 // Clear
+		w[7] += 2   // Len
 	}
 	w[1+r.N(3)] += 2 // always some writer
 	if c.Params["elem"] == 4 {
@@ -609,8 +624,8 @@ func setKeys(c *sim.Case) {
 	if nKeys < 4 {
 		nKeys = 4
 	}
-	if nKeys > 130 {
-		nKeys = 130
+	if nKeys > 20000 {
+		nKeys = 20000
 	}
 }
 
@@ -839,6 +854,9 @@ func check(run *enga.Run) *sim.Violation {
 	x := run.Inst.(*inst)
 	if c.P("warm") > 0 {
 		run.Out.Probes["map_with_a_long_earlier_life"]++
+	}
+	if c.P("nkeys") >= 8192 {
+		run.Out.Probes["map_with_thousands_of_live_entries"]++
 	}
 	if c.P("early") == 1 {
 		for t, prog := range c.Programs {
